@@ -40,6 +40,9 @@ def influence_matrix_cases(chk, n_cases, exprs, expected, meta):
             # the memory given as a time that need not be a multiple of dt: dkmax = round(tcut/dt)
             tcut = (dkmax + rng.choice([0.0, 0.3, -0.3, 0.45])) * dt
             par = oqupy.TempoParameters(dt=dt, epsrel=eps, tcut=tcut, add_correlation_time=tau)
+            if par.dkmax != dkmax:      # documented meaning, derived here and not read back from the library
+                chk.fail("tcut-meaning", f"TempoParameters(dt={dt}, tcut={tcut!r}).dkmax = {par.dkmax}: the memory time is {dkmax} steps (nearest number of steps)",
+                         {"kind": "tcut-meaning", "dt": dt, "tcut": repr(tcut), "library_dkmax": par.dkmax, "steps": dkmax})
             dkmax = par.dkmax
         else:
             par = oqupy.TempoParameters(dt=dt, epsrel=eps, dkmax=dkmax, add_correlation_time=tau)
@@ -186,8 +189,11 @@ def boson_search(chk, n_cases):
         dkmax = rng.choice([None, None, 1, 2, 3])
         tau = rng.choice([None, 0.0, 0.15, np.inf]) if dkmax is not None else None
         eps = 1e-7
-        if dkmax is not None and rng.random() < 0.4:
-            par = oqupy.TempoParameters(dt=dt, epsrel=eps, tcut=(dkmax + rng.choice([0.3, -0.3, 0.0])) * dt, add_correlation_time=tau)
+        if it == 2:     # every run: a memory TIME slightly below / exactly at a whole number of steps, and a run longer than it
+            dkmax, n, tau = rng.choice([2, 3]), 5, rng.choice([None, 0.0])
+        if dkmax is not None and (rng.random() < 0.4 or it == 2):
+            par = oqupy.TempoParameters(dt=dt, epsrel=eps, tcut=(dkmax + (rng.choice([0.3, -0.3, 0.0]) if it != 2 else rng.choice([-0.3, 0.0]))) * dt,
+                                        add_correlation_time=tau)
         else:
             par = oqupy.TempoParameters(dt=dt, epsrel=eps, dkmax=dkmax, add_correlation_time=tau)
         bath = oqupy.Bath(O, corr)
